@@ -395,9 +395,11 @@ def _seq_elements(fi, expr, what, depth=0):
     raise AnalysisError('%s: %s is not a literal list' % (what, short(expr)))
 
 
-def _dict_items(fi, expr, what):
-    """{key: value expr} of a dict valued expression: a literal, ``dict(k=v)``, or a local built from those plus
-    ``d[k] = v`` / ``d.update(...)`` / ``d.setdefault(k, v)``."""
+def _dict_items(fi, expr, what, depth=0):
+    """{key: value expr} of a dict valued expression: a literal, ``dict(k=v)``, ``dict([(k, v), ..])``, ``{**d, k: v}``,
+    or a local built from those plus ``d[k] = v`` / ``d.update(...)`` / ``d.setdefault(k, v)``."""
+    if depth > 4:
+        raise AnalysisError('%s: construction too deep to follow' % what)
     if isinstance(expr, ast.Name):
         if expr.id in _all_params(fi):
             raise AnalysisError('%s: %s is a parameter' % (what, expr.id))
@@ -408,6 +410,22 @@ def _dict_items(fi, expr, what):
     if not ls:
         raise AnalysisError('%s: construction of %s not found' % (what, short(expr)))
     for l in ls:
+        if l.kind == 'source':
+            src = l.node
+            if isinstance(src, ast.Name) and not (isinstance(expr, ast.Name) and src.id == expr.id):
+                items.update(_dict_items(fi, src, what, depth + 1))       # {**base, ...} / dict(base, ...)
+                continue
+            if isinstance(src, (ast.List, ast.Tuple)) and all(
+                    isinstance(p_, ast.Tuple) and len(p_.elts) == 2 and isinstance(p_.elts[0], ast.Constant) for p_ in src.elts):
+                for p_ in src.elts:                                         # dict([('k', v), ...])
+                    items[p_.elts[0].value] = p_.elts[1]
+                continue
+            if isinstance(src, (ast.Dict, ast.Call)) and src is not expr:
+                items.update(_dict_items(fi, src, what, depth + 1))
+                continue
+            if isinstance(src, ast.Call) and call_name(src) == 'zip' and len(src.args) == 2 and not src.keywords:
+                pass
+            raise AnalysisError('%s: part %s of the dict is not a literal' % (what, l.text))
         if l.kind != 'literal' or l.values is None:
             raise AnalysisError('%s: part %s of the dict is not a literal' % (what, l.text))
         for k in l.keys:
@@ -433,7 +451,7 @@ def _harmless_value(v):
     return not expr_may_raise(v)
 
 
-def _handler_completes(handler):
+def _handler_completes(handler, fi=None):
     """The handler body cannot raise and falls through / returns with a constant-like value: it is made of ``pass``,
     assignments / returns of values whose evaluation cannot raise.  Returns None or the offending statement."""
     for s in handler.body:
@@ -443,6 +461,11 @@ def _handler_completes(handler):
             continue
         if isinstance(s, ast.Assign) and all(isinstance(t, ast.Name) for t in s.targets) and _harmless_value(s.value):
             continue
+        if fi is not None and isinstance(s, ast.Assign) and _harmless_value(s.value) and all(
+                isinstance(t, ast.Name) or (isinstance(t, ast.Subscript) and isinstance(t.value, ast.Name) and
+                                            _harmless_value(t.slice) and _fresh_is_container(fi, t.value.id))
+                for t in s.targets):
+            continue      # ctx['k'] = <constant> on a dict built in this function
         if isinstance(s, ast.AnnAssign) and isinstance(s.target, ast.Name) and _harmless_value(s.value):
             continue
         if isinstance(s, ast.Return) and _harmless_value(s.value):
@@ -486,7 +509,7 @@ def _catch_all(fi, node):
                         return tr, h, 'the narrower handler "except %s" before it raises' % norm(h0.type)
                 if any(isinstance(s, ast.Raise) for s in ast.walk(h)):
                     return tr, h, 'the handler re-raises'
-                bad = _handler_completes(h)
+                bad = _handler_completes(h, fi)
                 if bad is not None:
                     return tr, h, 'the handler runs %s, which can raise itself' % short(bad, 60)
                 if tr.finalbody and any(isinstance(s, ast.Raise) for f in tr.finalbody for s in ast.walk(f)):
@@ -1180,6 +1203,36 @@ def _routes_agree(rep, fs):
               'every required endpoint parameter %r is a resource or built-in' % required if not missing else
               'endpoint parameters %r are not provided by create_app resources %r' % (missing, sorted(map(str, keys))), flaw,
               fs.resources_node)
+    # nothing else is configured that changes which requests reach the page (slash handling, middlewares, error handler)
+    app = fs.app_call
+    extras = []
+    for name_, pos_ in (('middlewares', 2), ('error_handler', 4)):
+        v = argn(app, name_, pos_)
+        if v is not None and not (isinstance(v, ast.Constant) and v.value is None) and \
+                not (isinstance(v, (ast.List, ast.Tuple)) and not v.elts):
+            extras.append('%s=%s' % (name_, short(v, 30)))
+    for k in app.keywords:
+        if k.arg == 'slash_mode':
+            val = k.value
+            dflt = None
+            try:
+                ai = repo.mod('clastic.application').functions.get('Application.__init__')
+                for n_ in ast.walk(ai.node):
+                    if isinstance(n_, ast.Call) and call_tail(n_) == 'pop' and n_.args and isinstance(n_.args[0], ast.Constant) \
+                            and n_.args[0].value == 'slash_mode' and len(n_.args) == 2:
+                        dflt = norm(n_.args[1])
+            except Exception:
+                dflt = None
+            if dflt is None or norm(val).rpartition('.')[2] != dflt.rpartition('.')[2]:
+                extras.append('slash_mode=%s' % short(val, 30))
+        elif k.arg is None or k.arg not in ('routes', 'resources', 'middlewares', 'render_factory', 'error_handler', 'debug'):
+            extras.append('%s=%s' % (k.arg or '**', short(k.value, 30)))
+    if len(app.args) > 5 or any(isinstance(a, ast.Starred) for a in app.args):
+        extras.append('extra positional arguments')
+    rep.check('R20.b', fkey(ca, 'Application configuration'), not extras,
+              'the failsafe Application is configured with routes, resources and render factory only' if not extras else
+              'the failsafe Application is also given %s: requests may be answered by something other than the page' % ', '.join(extras),
+              flaw, app)
     rep.floor('R20.b', 7)
     last = routes[-1]
     ok = last.kind == 'page' and '*>' in last.pattern
@@ -1190,9 +1243,39 @@ def _routes_agree(rep, fs):
 
 def _static_nonbreaking(rep, fs):
     # the embedded asset application must not pre-empt the catch-all page: every error it raises is non-breaking
-    from .c14 import check_nonbreaking
-    if check_nonbreaking(rep, 'R20.b') < 4:
-        raise AnalysisError('static serving raises not found')
+    from .c14 import check_nonbreaking, HTTP_ERRS, STATIC
+    from .common import raises_of, raise_type
+    from ..astutil import kwarg
+    repo = rep.repo
+    n = check_nonbreaking(rep, 'R20.b')
+    # the same judgement for HTTP errors raised one step away from the serving functions: in closures nested in
+    # them and in functions of the module they call (a refactoring may move a raise there)
+    st = repo.mod(STATIC)
+    serving = [st.functions.get(q) for q in ('build_file_response', 'StaticApplication.get_file_response', 'StaticFileRoute.get_file_response')]
+    serving = [f for f in serving if f is not None]
+    near, todo = {}, list(serving)
+    while todo:
+        fi = todo.pop()
+        for q, g in st.functions.items():
+            if q.startswith(fi.qualname + '.') and g.key not in near and g not in serving:
+                near[g.key] = g
+                todo.append(g)
+        for c in walk_body(fi.node):
+            g = _module_callee(repo, fi, c)
+            if g is not None and g.key not in near and g not in serving:
+                near[g.key] = g
+                todo.append(g)
+    for key in sorted(near):
+        g = near[key]
+        for r in raises_of(g):
+            if isinstance(r.exc, ast.Call) and raise_type(r) in HTTP_ERRS:
+                n += 1
+                v = kwarg(r.exc, 'is_breaking')
+                ok = isinstance(v, ast.Constant) and v.value is False
+                rep.check('R20.b', fkey(g, r), ok, '%s is raised non-breaking' % raise_type(r) if ok else
+                          '%s raised without is_breaking=False: routes after this static application are never tried' % raise_type(r), st, r)
+    if n < 4:
+        raise AnalysisError('static serving: only %d raises of HTTP errors found' % n)
 
 
 def _aliases_of(fi, roots):
@@ -1305,6 +1388,31 @@ def _template_escapes(rep, fs):
     need = {'tb_str', 'last_line', 'exc_type', 'exc_msg'}
     rep.check('R20.c', '%s::%s::fields' % (FLAW, cname), need <= refs,
               'page shows %s' % sorted(need) if need <= refs else 'page template no longer shows %s' % sorted(need - refs), flaw)
+    # the factory holding the template is built without its own escaping filters
+    reg_fi = _rfi
+    holder = _canon_name(reg_fi, reg.func.value) if isinstance(reg.func, ast.Attribute) else None
+    made = _single_value(reg_fi, holder) if holder else None
+    if isinstance(made, ast.Call):
+        over = [k.arg for k in made.keywords if k.arg in ('filters', 'env', 'optimizers') or k.arg is None]
+        rep.check('R20.c', fkey(reg_fi, 'render factory filters'), not over,
+                  'the render factory uses the stock ashes filters' if not over else
+                  'the render factory is built with its own %s: {x} is no longer known to be HTML-escaped by ashes\' h filter'
+                  % ', '.join(str(x) for x in over), flaw, made)
+    # the error text and the full file list are shown unconditionally (not inside another section / conditional)
+    stack, nested = [], {}
+    for t in tags:
+        if t.kind == 'close':
+            if stack:
+                stack.pop()
+            continue
+        if (t.kind == 'ref' and t.refpath == 'tb_str') or (t.kind == 'section' and t.refpath == 'all_mon_files'):
+            nested.setdefault(t.refpath, []).append([x.text for x in stack])
+        if t.kind == 'section' and not t.selfclosing:
+            stack.append(t)
+    cond = dict((k, v) for k, v in nested.items() if v and all(v_ for v_ in v))
+    rep.check('R20.c', '%s::%s::shown unconditionally' % (FLAW, cname), not cond,
+              'the error text and the full file list are rendered outside any other section' if not cond else
+              'the page shows %s only inside %s' % (sorted(cond), sorted(set(x for v in cond.values() for st_ in v for x in st_))), flaw)
     aw = autoescape_writes(repo)
     rep.check('R20.c', 'clastic::autoescape_filter', not aw, 'no code in clastic assigns autoescape_filter' if not aw else
               'autoescape_filter is assigned at %s' % ', '.join('%s:%s' % (m.relpath, getattr(n, 'lineno', '?')) for m, n in aw))
@@ -1560,6 +1668,14 @@ class _Eval(object):
             vals = [x for x in mod.assigns[name]]
             if len(vals) == 1 and isinstance(vals[0], ast.expr) and depth < 6:
                 v = self.expr(vals[0], {}, depth + 1)
+            elif len(vals) == 1 and vals[0] is None and depth < 6:
+                # A, B = 'a', 'b' at module level
+                for st in mod.tree.body:
+                    if isinstance(st, ast.Assign) and len(st.targets) == 1 and isinstance(st.targets[0], (ast.Tuple, ast.List)) and \
+                            any(isinstance(t, ast.Name) and t.id == name for t in st.targets[0].elts):
+                        tmp = {}
+                        self.assign(st.targets[0], self.expr(st.value, {}, depth + 1), tmp, depth + 1)
+                        v = tmp.get(name, _Unknown)
         elif name in _BUILTIN_VALUES:
             v = _BUILTIN_VALUES[name]
         elif name in _EXC_NAMES:
@@ -1989,11 +2105,24 @@ class _Eval(object):
         return _Method(obj, e.attr)
 
     def call(self, e, env, depth):
-        if any(isinstance(a, ast.Starred) for a in e.args) or any(k.arg is None for k in e.keywords):
-            raise _Unknown('star arguments')
         f = self.expr(e.func, env, depth)
-        args = [self.expr(a, env, depth) for a in e.args]
-        kwargs = dict((k.arg, self.expr(k.value, env, depth)) for k in e.keywords)
+        args, kwargs = [], {}
+        for a in e.args:
+            if isinstance(a, ast.Starred):
+                seq = self.expr(a.value, env, depth)
+                if not isinstance(seq, (list, tuple)):
+                    raise _Unknown('star argument of %s' % type(seq).__name__)
+                args.extend(seq)
+            else:
+                args.append(self.expr(a, env, depth))
+        for k in e.keywords:
+            if k.arg is None:
+                d = self.expr(k.value, env, depth)
+                if not isinstance(d, dict) or not all(isinstance(x, str) for x in d):
+                    raise _Unknown('double-star argument')
+                kwargs.update(d)
+            else:
+                kwargs[k.arg] = self.expr(k.value, env, depth)
         if isinstance(f, _FuncVal):
             return self.call_function(f, args, kwargs, depth + 1)
         if isinstance(f, _ClassVal):
@@ -2136,79 +2265,156 @@ def _stores_name(fnode, name):
     return out
 
 
-def _launcher_handover(rep, fs):
-    """R20.e: the development server gives the failsafe the error text and the file list the child reported."""
-    repo = fs.repo
-    server = repo.mod('clastic.server')
-    rep.rule('R20.e', 'the launcher passes the error text and the monitored-file list it collected on to flaw.create_app')
-    cparams = fs.ca.params()
-    if len(cparams) < 2:
-        raise AnalysisError('create_app has fewer than two parameters')
-    builders = [(fi, c) for q, fi in sorted(server.functions.items()) for c in walk_body(fi.node)
-                if isinstance(c, ast.Call) and call_tail(c) == 'create_app']
-    if not builders:
-        raise AnalysisError('server.py: no call of flaw.create_app found')
-    for fi, c in builders:
-        a0, a1 = argn(c, cparams[0], 0), argn(c, cparams[1], 1)
-        ps = fi.params()
-        p0 = _param_behind(fi, a0) if a0 is not None else None
-        p1 = _param_behind(fi, a1) if a1 is not None else None
-        ok = p0 is not None and p1 is not None and p0 != p1 and ps.index(p0) < ps.index(p1)
-        rep.check('R20.e', fkey(fi, 'create_app arguments'), ok,
-                  'the failsafe is built from the error text and the file list this function was given' if ok else
-                  'create_app is not called with (error text, monitored files) as received: %s' % short(c, 80), server, c)
-    rwr = server.func('restart_with_reloader')
-    hooks = [c for c in walk_body(rwr.node) if isinstance(c, ast.Call) and isinstance(c.func, ast.Name) and c.func.id in rwr.params()
-             and len(c.args) + len(c.keywords) == 2 and not c.keywords]
-    if len(hooks) != 1:
-        raise AnalysisError('restart_with_reloader: call of the error hook (text, files) not found')
-    X = _canon_name(rwr, hooks[0].args[1])
-    if X is None or X in rwr.params():
-        raise AnalysisError('restart_with_reloader: the file list given to the error hook is not a local')
-    problems = []
-    updated = False
+_GROWS = ('extend', 'append', 'insert')
+
+
+def _list_updates(repo, mod, fi, name, origin, depth=0, seen=None):
+    """Follow the list known as ``name`` in function ``fi``: (is it updated in place somewhere, [(function, stmt, why)]
+    where something that should update it rebinds a name / attribute of its own instead).  Followed into nested
+    functions, module functions that are handed the list (directly or through functools.partial) and classes of the
+    module constructed with it (``self.x = <param>`` ... ``self.x[:] = ...``)."""
     from .. import effects
-    scopes_ = [rwr] + [fi for q, fi in sorted(server.functions.items()) if q.startswith(rwr.qualname + '.')]
-    for fi in scopes_:
-        if fi is not rwr and X not in fi.params():
-            for st in _stores_name(fi.node, X):
-                problems.append((fi, st, 'the nested function %s rebinds %s as its own local (%s): the list handed to the error hook '
-                                 'never sees the files the child reported' % (fi.qualname, X, short(st, 60))))
-        if fi is rwr or X not in fi.params():
-            for e in effects.effects_in(fi.node):
-                if e.root == X and ((e.kind == 'store' and isinstance(e.target, ast.Subscript)) or
-                                    (e.kind == 'mutcall' and e.method in ('extend', 'append', 'insert'))):
-                    updated = True
-        # module functions that are handed the list: directly, or through functools.partial(f, ..., X, ...)
-        for c in walk_body(fi.node):
+    seen = set() if seen is None else seen
+    if depth > 4 or (fi.key, name) in seen:
+        return False, []
+    seen.add((fi.key, name))
+    updated, problems = False, []
+    scopes_ = [fi] + [g for q, g in sorted(mod.functions.items()) if q.startswith(fi.qualname + '.')]
+    for sc in scopes_:
+        shadowed = sc is not fi and name in sc.params()
+        if shadowed:
+            continue
+        if sc is not fi or not origin:
+            # a closure (or a helper that was handed the list) assigning the bare name makes a new local
+            for st in _stores_name(sc.node, name):
+                problems.append((sc, st, '%s rebinds %s as a name of its own (%s): the list handed to the error hook never '
+                                 'sees the files the child reported' % (sc.qualname, name, short(st, 60))))
+        for e in effects.effects_in(sc.node):
+            if e.root == name and e.chain and len([x for x in e.chain[1:] if x not in ('[]',)]) == 0 and \
+                    ((e.kind == 'store' and isinstance(e.target, ast.Subscript)) or (e.kind == 'mutcall' and e.method in _GROWS)):
+                updated = True
+        for c in walk_body(sc.node):
             if not isinstance(c, ast.Call):
                 continue
             args, callee = list(c.args), c.func
             if call_tail(c) == 'partial' and c.args:
                 callee, args = c.args[0], list(c.args[1:])
-            if not isinstance(callee, ast.Name) or (fi is not rwr and X in fi.params()):
+            if not isinstance(callee, ast.Name):
+                continue
+            pos = [i for i, a in enumerate(args) if isinstance(a, ast.Name) and a.id == name]
+            kws = [k.arg for k in c.keywords if k.arg and isinstance(k.value, ast.Name) and k.value.id == name]
+            if not pos and not kws:
                 continue
             try:
-                kind, m, g = repo.resolve(server, callee.id)
+                kind, m, g = repo.resolve(mod, callee.id)
             except Exception:
                 continue
-            if kind != 'func' or m is not server:
+            if m is not mod:
+                continue
+            if kind == 'func':
+                gps = g.params()
+                for pn in [gps[i] for i in pos if i < len(gps)] + [k for k in kws if k in gps]:
+                    u, pr = _list_updates(repo, mod, g, pn, False, depth + 1, seen)
+                    updated, problems = updated or u, problems + pr
+            elif kind == 'class':
+                init = repo.find_method(g, '__init__')
+                if init is None or init.mod is not mod:
+                    continue
+                ips = init.params()[1:]
+                for pn in [ips[i] for i in pos if i < len(ips)] + [k for k in kws if k in ips]:
+                    attrs = [s_.targets[0].attr for s_ in stmts_of(init.node)
+                             if isinstance(s_, ast.Assign) and len(s_.targets) == 1 and isinstance(s_.targets[0], ast.Attribute)
+                             and isinstance(s_.targets[0].value, ast.Name) and s_.targets[0].value.id == init.params()[0]
+                             and isinstance(s_.value, ast.Name) and s_.value.id == pn]
+                    for meth in g.methods.values():
+                        self_ = meth.params()[0] if meth.params() else None
+                        for s_ in stmts_of(meth.node):
+                            if meth is not init and isinstance(s_, ast.Assign):
+                                for t in s_.targets:
+                                    if isinstance(t, ast.Attribute) and isinstance(t.value, ast.Name) and t.value.id == self_ and t.attr in attrs:
+                                        problems.append((meth, s_, '%s rebinds the attribute %s.%s (%s): the caller\'s list, which is handed '
+                                                         'to the error hook, never sees the files the child reported'
+                                                         % (meth.qualname, self_, t.attr, short(s_, 60))))
+                        for e in effects.effects_in(meth.node):
+                            if e.chain and len(e.chain) >= 2 and e.chain[0] == self_ and e.chain[1] in attrs and \
+                                    all(x == '[]' for x in e.chain[2:]) and \
+                                    ((e.kind == 'store' and isinstance(e.target, ast.Subscript)) or (e.kind == 'mutcall' and e.method in _GROWS)):
+                                updated = True
+    return updated, problems
+
+
+def _launcher_handover(rep, fs):
+    """R20.e: the development server gives the failsafe the error text and the file list the child reported.  The
+    constructs are located by role; where they cannot be, the judgement is declined (a note), never guessed."""
+    repo = fs.repo
+    server = repo.mod('clastic.server')
+    rep.rule('R20.e', 'the launcher passes the error text and the monitored-file list it collected on to flaw.create_app')
+    cparams = fs.ca.params()
+    builders = [(fi, c) for q, fi in sorted(server.functions.items()) for c in walk_body(fi.node)
+                if isinstance(c, ast.Call) and call_tail(c) == 'create_app']
+    if len(cparams) < 2 or not builders:
+        rep.notes.append('R20.e declined: no call of flaw.create_app found in server.py')
+    for fi, c in builders:
+        a0, a1 = argn(c, cparams[0], 0), argn(c, cparams[1], 1)
+        ps = fi.params()
+        p0 = _param_behind(fi, a0) if a0 is not None else None
+        p1 = _param_behind(fi, a1) if a1 is not None else None
+        if a0 is not None and a1 is not None and (p0 is None or p1 is None):
+            rep.notes.append('R20.e declined: the arguments of %s are not parameters of %s' % (short(c, 60), fi.qualname))
+            continue
+        ok = p0 is not None and p1 is not None and p0 != p1 and ps.index(p0) < ps.index(p1)
+        rep.check('R20.e', fkey(fi, 'create_app arguments'), ok,
+                  'the failsafe is built from the error text and the file list this function was given' if ok else
+                  'create_app is not called with (error text, monitored files) as received: %s' % short(c, 80), server, c)
+    rwr = server.functions.get('restart_with_reloader')
+    if rwr is None or not rwr.params():
+        rep.notes.append('R20.e declined: restart_with_reloader(error_func) not found')
+        return
+
+    def hook_calls(fi, hook_params):
+        return [c for c in walk_body(fi.node) if isinstance(c, ast.Call) and isinstance(c.func, ast.Name) and c.func.id in hook_params
+                and len(c.args) == 2 and not c.keywords and not assigned_value(fi.node, c.func.id)]
+    owner, hooks = rwr, hook_calls(rwr, rwr.params())
+    X = None
+    if len(hooks) == 1:
+        X = _canon_name(rwr, hooks[0].args[1])
+    elif not hooks:
+        # one level down: restart_with_reloader hands its hook (and its list) to a function of the module
+        for c in walk_body(rwr.node):
+            g = _module_callee(repo, rwr, c)
+            if g is None:
                 continue
             gps = g.params()
-            for i, a in enumerate(args):
-                if isinstance(a, ast.Name) and a.id == X and i < len(gps):
-                    for st in _stores_name(g.node, gps[i]):
-                        problems.append((g, st, '%s rebinds its parameter %s (%s): the caller\'s list, which is handed to the error '
-                                         'hook, never sees the files the child reported' % (g.qualname, gps[i], short(st, 60))))
-                    for e in effects.effects_in(g.node):
-                        if e.root == gps[i] and ((e.kind == 'store' and isinstance(e.target, ast.Subscript)) or
-                                                 (e.kind == 'mutcall' and e.method in ('extend', 'append', 'insert'))):
-                            updated = True
+            handed = [gps[i] for i, a in enumerate(c.args) if isinstance(a, ast.Name) and a.id in rwr.params() and i < len(gps)]
+            hs = hook_calls(g, handed)
+            if len(hs) == 1 and isinstance(hs[0].args[1], ast.Name) and hs[0].args[1].id in gps and \
+                    not assigned_value(g.node, hs[0].args[1].id) and gps.index(hs[0].args[1].id) < len(c.args):
+                back = c.args[gps.index(hs[0].args[1].id)]
+                owner, hooks, X = g, hs, _canon_name(rwr, back)
+                break
+    if len(hooks) != 1 or X is None or X in rwr.params():
+        rep.notes.append('R20.e declined: the call of the error hook (text, files) in restart_with_reloader was not found')
+        return
+    # the list is created once, outside the restart loop
+    made = [st for st, v, idx in assigned_value(rwr.node, X)]
+    in_loop = []
+    for st in made:
+        cur = st
+        while cur is not None and cur is not rwr.node:
+            cur = server.parents.get(cur)
+            if isinstance(cur, (ast.While, ast.For)):
+                in_loop.append(st)
+                break
+    updated, problems = _list_updates(repo, server, rwr, X, True)
+    for st in in_loop:
+        problems.append((rwr, st, 'the file list %s is re-created in every round of the restart loop (%s): what the previous child '
+                         'reported is lost when the next one dies' % (X, short(st, 50))))
     for fi, st, why in problems:
         rep.fail('R20.e', fkey(fi, st), why, server, st)
     if not problems:
         if not updated:
-            raise AnalysisError('restart_with_reloader: no in-place update of the monitored-file list %s found' % X)
+            rep.notes.append('R20.e declined: no in-place update of the monitored-file list %s was found' % X)
+            return
         rep.ok('R20.e', fkey(rwr, 'file list %s' % X), 'the list given to the error hook is the one filled in place from the child\'s report',
                server, hooks[0])
 
